@@ -172,6 +172,22 @@ func checkChain(w *World, r *Report, rule, where string, fn *ssa.Function, pos s
 	}
 }
 
+// alwaysPerforms: every way through g to a return passes an instruction matching p, other than leaving over the failure
+// edge of a call (g reports that failure to its caller, which must test it).
+func alwaysPerforms(g *ssa.Function, p func(ssa.Instruction) bool) bool {
+	if g == nil || len(g.Blocks) == 0 || len(findInstrs(g, p)) == 0 {
+		return false
+	}
+	failed := map[edgeKey]bool{}
+	for _, oc := range findInstrs(g, func(x ssa.Instruction) bool { _, ok := x.(*ssa.Call); return ok }) {
+		for e := range failureEdges(g, oc.(*ssa.Call)) {
+			failed[e] = true
+		}
+	}
+	skip, _ := (pathQuery{fn: g, target: func(x ssa.Instruction) bool { _, ok := x.(*ssa.Return); return ok }, avoid: p, blocked: failed}).find(entryPos(g))
+	return !skip
+}
+
 // ---------- ORD-1 snapshot order ----------
 
 func ruleORD1(w *World, r *Report) {
@@ -189,17 +205,63 @@ func ruleORD1(w *World, r *Report) {
 	}
 	for _, fi := range fis {
 		fn := w.SSAFunc(fi.Obj)
+		begin := methodPred(w, "pkg/persistence", "LazyAOFWriter.BeginSnapshotMode")
+		// the file-writing steps moved into a helper of their own: the protocol function is the helper's only caller, and a
+		// call of the helper stands for the steps it always performs. The order inside the helper is checked there.
+		var inner *ssa.Function
+		if len(findInstrs(fn, begin)) == 0 && !fi.Obj.Exported() {
+			var outer *ssa.Function
+			n := 0
+			for c := range w.staticCallersOf(fn) {
+				for c.Parent() != nil {
+					c = c.Parent()
+				}
+				if c != outer {
+					outer = c
+					n++
+				}
+			}
+			if n == 1 && outer != nil {
+				if oo, _ := outer.Object().(*types.Func); oo != nil && w.Decl(oo) != nil {
+					inner, fn, fi = fn, outer, w.Decl(oo)
+				}
+			}
+		}
+		lift := func(p func(ssa.Instruction) bool) func(ssa.Instruction) bool {
+			if inner == nil {
+				return p
+			}
+			return func(in ssa.Instruction) bool {
+				if p(in) {
+					return true
+				}
+				c, ok := in.(*ssa.Call)
+				return ok && c.Call.StaticCallee() == inner && alwaysPerforms(inner, p)
+			}
+		}
 		where := shortName(fi.Obj)
 		pos := w.Pos(fi.Decl.Pos())
 		steps := []step{
-			{"BeginSnapshotMode", methodPred(w, "pkg/persistence", "LazyAOFWriter.BeginSnapshotMode")},
-			{"DB.Snapshot", methodPred(w, "pkg/core", "DB.Snapshot")},
-			{"Rename(tmp,snapPath)", renameOntoSnap},
-			{"AOF.Truncate", methodPred(w, "pkg/persistence", "LazyAOFWriter.Truncate")},
+			{"BeginSnapshotMode", begin},
+			{"DB.Snapshot", lift(methodPred(w, "pkg/core", "DB.Snapshot"))},
+			{"Rename(tmp,snapPath)", lift(renameOntoSnap)},
+			{"AOF.Truncate", lift(methodPred(w, "pkg/persistence", "LazyAOFWriter.Truncate"))},
 			{"EndSnapshotMode", endSnapshotPred(w)},
 			{"AOF.Write(shadow)", shadowToLogPred(w, fn)},
 		}
 		checkChain(w, r, "ORD-1", where, fn, pos, steps)
+		if inner != nil {
+			var sub []step
+			for _, st := range []step{{"DB.Snapshot", methodPred(w, "pkg/core", "DB.Snapshot")}, {"Rename(tmp,snapPath)", renameOntoSnap}, {"AOF.Truncate", methodPred(w, "pkg/persistence", "LazyAOFWriter.Truncate")}} {
+				if len(findInstrs(inner, st.pred)) > 0 {
+					sub = append(sub, st)
+				}
+			}
+			if len(sub) > 1 {
+				checkChain(w, r, "ORD-1", where, inner, pos, sub)
+			}
+			fn = inner // the file-level clauses below are about the function that handles the files
+		}
 		// the file handed to DB.Snapshot must not be opened on snapPath itself
 		for _, in := range findInstrs(fn, func(in ssa.Instruction) bool {
 			return isCallTo(in, "os", "Create") || isCallTo(in, "os", "OpenFile")
@@ -1531,7 +1593,7 @@ func (w *World) journalingOps() []*FuncInfo {
 	jw := w.journalObj()
 	var ops []*FuncInfo
 	for _, fi := range w.ModuleFuncs() {
-		if relPkg(fi.Obj) != "pkg/engine" || isReplayOrRestore(fi.Obj) {
+		if relPkg(fi.Obj) != "pkg/engine" || w.isReplayOrRestore(fi.Obj) {
 			continue
 		}
 		switch shortName(fi.Obj) {
@@ -1760,6 +1822,15 @@ func ruleORD9(w *World, r *Report) {
 			}
 			return isCallTo(in, "sync", "Cond.Wait") || isCallTo(in, "sync", "WaitGroup.Wait")
 		})
+		// … and the wait has one way out: the wake-up. A timer, a default or a context next to it ends the wait while
+		// operations of the old epoch are still between their journal write and their change to memory.
+		for i, wt := range waits {
+			sel, isSel := wt.(*ssa.Select)
+			if !isSel {
+				continue
+			}
+			r.Cond(sel.Blocking && len(sel.States) == 1, "ORD-9", fmt.Sprintf("opGate.drain:wait#%d:ends-only-with-the-wake-up", i+1), w.Pos(sel.Pos()), "the wait has no other way out", "opGate.drain can stop waiting without having been woken (a timeout, a default or a cancellation next to the wake-up channel): SaveSnapshot / RewriteAOF then serialise the state while an operation that journaled before BeginSnapshotMode has not applied yet, and truncate or replace the log that holds its record — the operation is acknowledged later and gone after the next restart")
+		}
 		r.Cond(len(waits) > 0, "ORD-9", "opGate.drain:blocks", w.Pos(fn.Pos()), "drain contains a blocking wait", "opGate.drain never blocks: the snapshot protocols no longer wait for the operations that journaled before BeginSnapshotMode")
 	}
 }
